@@ -36,7 +36,12 @@ inductive Ev where
   | sdReturned (ok : Bool)
   | expShutdownStart
   | expShutdownEnd
-  | hang                          -- a call did not return within the harness's watchdog time
+  | hang                          -- some ForceFlush or Shutdown call did not return within the harness's watchdog time
+                                  -- (histories recorded before the events below existed do not say which)
+  | hangSd                        -- … a Shutdown call
+  | hangFF (fid : Nat) (full : Bool)   -- … the ForceFlush call `fid`; `full`: the harness (white-box) saw the queue
+                                       -- filled to its capacity when the watchdog fired
+  | hangEnd (id : Nat) (full : Bool)   -- … the End of span `id`, which had passed the processor's stopped check
 deriving Repr, DecidableEq
 
 structure Scan where
@@ -95,7 +100,7 @@ def scanStep (blocking : Bool) (dropped : Nat) (s : Scan) : Ev → Scan
     let s := if s.inExport then { s with bad := "S3:exporter-shutdown-during-export" :: s.bad } else s
     { s with inExpShutdown := true }
   | .expShutdownEnd => { s with inExpShutdown := false, expShutdownDone := true }
-  | .hang => { s with bad := "hang" :: s.bad }
+  | .hang | .hangSd | .hangFF _ _ | .hangEnd _ _ => s     -- hung calls are judged by `histHangs`
 
 /-- the whole-history oracle: returns the violated clauses (empty = ok) and the F22 flag; the F41 flag of the same
 scan is `histF41` -/
@@ -113,6 +118,42 @@ def histCheck (maxB : Nat) (blocking : Bool) (dropped : Nat) (allEnded allUnsamp
 were missing, all spans ended before the first Shutdown call being delivered (known finding F41) -/
 def histF41 (blocking : Bool) (dropped : Nat) (h : List Ev) : Bool :=
   (h.foldl (scanStep blocking dropped) {}).f41
+
+/-- what a history shows at the moment a hang event is stamped (`pre` = the events before it): has the exporter's
+Shutdown ended (the processor calls it after the worker has exited), is a Shutdown call outstanding, and which
+ForceFlush calls made before the first `sdCalled` have not returned -/
+def hangDone (pre : List Ev) : Bool := pre.contains .expShutdownEnd
+
+def hangSdOutstanding (pre : List Ev) : Bool :=
+  (pre.filter fun | .sdReturned _ => true | _ => false).length < (pre.filter (· == .sdCalled)).length
+
+def hangEarlyFF (pre : List Ev) : List Nat :=
+  let beforeSd := pre.takeWhile (· != .sdCalled)
+  let called := beforeSd.filterMap fun | .ffCalled fid => some fid | _ => none
+  called.filter fun fid => !pre.any (fun | .ffReturned g _ => g == fid | _ => false)
+
+/-- the verdict on one hang event: `none` = not a hang event, `some true` = known finding F42 (a producer stuck on the
+full queue after the worker exited — the model's `StuckFF` / `StuckEnd`), `some false` = the failure "hang".
+* `hangFF fid full` / `hangEnd id full` (the harness says who hung and, white-box, whether the queue was filled to its
+  capacity when the watchdog fired): F42 iff the exporter's Shutdown had ended before and the queue was full, a hung End
+  only in blocking mode. That the call sits at its send is known by elimination (it passed its stopped check and has
+  not returned).
+* `hangSd`: a hung Shutdown call is always a failure.
+* `hang` (recorded before the harness said who hung; the queue occupancy is not in the history): F42 iff the exporter's
+  Shutdown had ended before, no Shutdown call is outstanding, and some ForceFlush called before the first `sdCalled`
+  has not returned — a ForceFlush that found `stopped` set would have returned at once, so the hung one passed its
+  check before the flag was stored, and the worker exited before it could be served. -/
+def judgeHang (blocking : Bool) (pre : List Ev) : Ev → Option Bool
+  | .hangFF _ full => some (hangDone pre && full)
+  | .hangEnd _ full => some (hangDone pre && full && blocking)
+  | .hangSd => some false
+  | .hang => some (hangDone pre && !hangSdOutstanding pre && !(hangEarlyFF pre).isEmpty)
+  | _ => none
+
+/-- the hung calls of a history: returns the failures and the F42 flag -/
+def histHangs (blocking : Bool) (h : List Ev) : List String × Bool :=
+  let js := (List.range h.length).filterMap fun i => h[i]?.bind (judgeHang blocking (h.take i))
+  (if js.any (· == false) then ["hang"] else [], js.any (· == true))
 
 /-- the ids of the `ended` events of a history -/
 def endedIds (h : List Ev) : List Nat := h.filterMap fun | .ended id => some id | _ => none
